@@ -42,6 +42,7 @@ type Val struct {
 	Inner *Val
 	Tuple []Val
 	Global *ssa.Global // provenance: the value was loaded whole from this global
+	Elems  []Val       // for a slice made from a fresh varargs array: the values stored in it
 }
 
 type Leaf struct {
